@@ -206,19 +206,22 @@ def judge_doc(item):
                 if q["out"] != "ok" or sorted(abs(i) for i in q["ids"]) != list(r["pl"]) or not q["same"]:
                     stats["model_path_unresolved"] += 1     # counted; the verdict is given on the paths the code prints
         for c in cases:
-            for expr in c["x"]:
+            for expr in list(c["x"]) + list(c.get("spell", [])):
                 if expr not in TERMS:
                     TERMS[expr] = pso.terms_of(expr) + (pso.parse_expr(expr),)
                 terms, got, want = TERMS[expr]
                 stats["expressions"] += 1
+                if "\\" in expr:
+                    stats["escaped_spellings"] += 1
                 if got != want:
-                    sig = "terms:%s" % want[1]
+                    sig = "terms:%s%s" % (want[1], ":escaped-spelling" if "\\" in expr else "")
                     stats["viol:" + sig] += 1
                     if kept[sig] < MAX_KEEP:
                         kept[sig] += 1
                         viol.append((sig, "expression %r is turned into %s, it spells %s" % (expr, got, want),
                                      {"kind": "case", "doc": doc, "sx": sx, "seed": seed, "style": style, "plain": plain, "case": c, "expr": expr, "sep": "."}))
-                    continue
+                    if terms is None:
+                        continue        # the tool refuses the expression; otherwise it searches with what it made of it
                 a, b = seps_for(c, expr, quick, seed)
                 for sep in a + b:
                     run = pso.run_search(data, expr, c["o"], sep, terms)
@@ -236,7 +239,7 @@ def judge_doc(item):
                     if c["cls"]:
                         stats["devclass_cases"] += 1
                     for pr in problems:
-                        sig = signature(doc, c, pr)
+                        sig = signature(doc, c, pr) + (":escaped-spelling" if "\\" in expr else "")
                         stats["viol:" + sig] += 1
                         if kept[sig] < MAX_KEEP:
                             kept[sig] += 1
@@ -484,7 +487,7 @@ def cli_sample(ctx, corpus, rng, count):
     picks = [rng.choice(corpus) for _ in range(count)] if corpus else []
     for e in picks:
         c = rng.choice(e["cases"])
-        expr = rng.choice(c["x"])
+        expr = rng.choice(list(c["x"]) + list(c.get("spell", [])))
         sep = rng.choice([".", "/"])
         text = doc_text(e["doc"], e.get("sx"), "block", False)
         with open(f, "w") as fh:
@@ -514,7 +517,7 @@ def selftest(corpus):
                 continue
             data = absdoc.load(doc_text(doc, e.get("sx"), "block", False))
             rv = pso.Resolver(data, e.get("sx"))
-            expr = c["x"][0]
+            expr = (list(c["x"]) + list(c.get("spell", [])))[0]
             run = pso.run_search(data, expr, c["o"], ".")
             st = collections.Counter()
             if judge_search(doc, resmap, rv, c, expr, ".", run, st):
@@ -598,6 +601,7 @@ def run(ctx):
         "rule": "evaluation = one real search_for_paths call (document variant x option combination x expression x notation) with every "
                 "printed path re-queried; distinct non-trivial = distinct (document, option combination, non-empty expected place set)",
         "documents": ndocs, "case_groups": ngroups, "expressions_checked": tot["expressions"],
+        "escaped_spellings_checked": tot["escaped_spellings"],
         "nontrivial_evaluations": tot["nontrivial"], "verdict_cases": tot["verdict"], "informational_cases": tot["info"],
         "model_drift": tot["info_mismatch"], "deviation_class_cases": tot["devclass_cases"],
         "traces_validated_against_impl": tot["evaluations"],
